@@ -2,6 +2,7 @@ import HmfVerif.Real.Tactics
 import HmfVerif.Gen.ExprFilters
 import HmfVerif.Gen.ExprFlow
 import HmfVerif.Proofs.AnalysisWindows
+import HmfVerif.Proofs.QuadLemmas
 /-!
 # C05 — the slope dlnσ/dlnm is the derivative of the σ returned
 -/
@@ -67,5 +68,46 @@ theorem gaussian_slope_integrand_nonpos (x : ℝ) : exp (-(x^2)/2) * (-(x^2) * e
   have h2 : 0 ≤ x^2 := sq_nonneg x
   nlinarith [mul_pos h1 h1]
 end
+
+/-! ## the slope is the exact derivative of the discretised σ² that `sigma` returns -/
+section DiscreteSlope
+open Hmf.Quad
+variable (opq : String → ℝ → ℝ) (ρ : String → ℝ)
+/-- the generated windows and window derivatives as functions of the argument kR -/
+noncomputable def gaussW (x : ℝ) : ℝ := evalR opq (Function.update ρ "kr" x) Gen.Filters.Gaussian_k_space
+noncomputable def gaussDW (x : ℝ) : ℝ := evalR opq (Function.update ρ "kr" x) Gen.Filters.Gaussian_dw_dlnkr
+noncomputable def tophatW (x : ℝ) : ℝ := evalR opq (Function.update ρ "kr" x) Gen.Filters.TopHat_k_space
+noncomputable def tophatDW (x : ℝ) : ℝ := evalR opq (Function.update ρ "kr" x) Gen.Filters.TopHat_dw_dlnkr
+
+/-- **C05 (Gaussian filter).** On every tabulated spectrum and logarithmic grid, the quantity `dlnss_dlnr` integrates —
+    simps(P k³ W dW)/(π² σ²) with the *generated* window and window derivative — is exactly the derivative with respect to ln R of
+    ln σ², σ² being the Simpson sum `sigma` itself returns. No finite-difference or quadrature error is involved. -/
+theorem gaussian_slope_is_derivative_of_returned_sigma (ks Ps : List ℝ) (dlnk t : ℝ) (hk : ∀ k ∈ ks, 0 < k)
+    (hpos : 0 < simps .avg dlnk ((ks.zip Ps).map (fun kp => kp.2 * kp.1 ^ 3 * gaussW opq ρ (exp t * kp.1) ^ 2))) :
+    HasDerivAt (fun s => Real.log (1 / 2 / π ^ 2 * simps .avg dlnk ((ks.zip Ps).map (fun kp => kp.2 * kp.1 ^ 3 * gaussW opq ρ (exp s * kp.1) ^ 2))))
+      (simps .avg dlnk ((ks.zip Ps).map (fun kp => kp.2 * kp.1 ^ 3 * (gaussW opq ρ (exp t * kp.1) * gaussDW opq ρ (exp t * kp.1)))) /
+        (π ^ 2 * (1 / 2 / π ^ 2 * simps .avg dlnk ((ks.zip Ps).map (fun kp => kp.2 * kp.1 ^ 3 * gaussW opq ρ (exp t * kp.1) ^ 2))))) t := by
+  apply dlnss_dlnr_exact (gaussW opq ρ) (gaussDW opq ρ) ks Ps dlnk t hk _ hpos
+  intro k hkm
+  have hx : 0 < exp t * k := mul_pos (exp_pos t) (hk k hkm)
+  have := gaussian_dw_is_derivative opq ρ (Real.log (exp t * k))
+  rw [Real.exp_log hx] at this
+  exact this
+
+/-- **C05 (top-hat filter).** The same exact statement wherever every sampled argument kR lies above the small-argument guard
+    of `dw_dlnkr` (kR > 10⁻³; below it the code sets the derivative to 0 — the harness measures that truncation) -/
+theorem tophat_slope_is_derivative_of_returned_sigma (ks Ps : List ℝ) (dlnk t : ℝ) (hk : ∀ k ∈ ks, 0 < k)
+    (hguard : ∀ k ∈ ks, 1e-3 < exp t * k)
+    (hpos : 0 < simps .avg dlnk ((ks.zip Ps).map (fun kp => kp.2 * kp.1 ^ 3 * tophatW opq ρ (exp t * kp.1) ^ 2))) :
+    HasDerivAt (fun s => Real.log (1 / 2 / π ^ 2 * simps .avg dlnk ((ks.zip Ps).map (fun kp => kp.2 * kp.1 ^ 3 * tophatW opq ρ (exp s * kp.1) ^ 2))))
+      (simps .avg dlnk ((ks.zip Ps).map (fun kp => kp.2 * kp.1 ^ 3 * (tophatW opq ρ (exp t * kp.1) * tophatDW opq ρ (exp t * kp.1)))) /
+        (π ^ 2 * (1 / 2 / π ^ 2 * simps .avg dlnk ((ks.zip Ps).map (fun kp => kp.2 * kp.1 ^ 3 * tophatW opq ρ (exp t * kp.1) ^ 2))))) t := by
+  apply dlnss_dlnr_exact (tophatW opq ρ) (tophatDW opq ρ) ks Ps dlnk t hk _ hpos
+  intro k hkm
+  have hx : 0 < exp t * k := mul_pos (exp_pos t) (hk k hkm)
+  have := tophat_dw_is_derivative opq ρ (Real.log (exp t * k)) (by rw [Real.exp_log hx]; exact hguard k hkm)
+  rw [Real.exp_log hx] at this
+  exact this
+end DiscreteSlope
 
 end Hmf.C05
